@@ -31,6 +31,8 @@ fn alpha() -> Vec<&'static str> {
         r#"{"m":"m","i":2,"j":1,"b":"c"}"#,
         r#"{"m":"m","j":1,"b":"d"}"#,
         "noise",
+        // the same columns as the first line, another text
+        r#"{"m":"m","a":1,"b":"a","i":1,"z":0}"#,
     ]
 }
 
@@ -47,6 +49,8 @@ fn stmts() -> Vec<&'static str> {
         "SELECT DISTINCT i, a FROM t WHERE b = 'a'",
         "SELECT DISTINCT i, j FROM t",
         "SELECT DISTINCT j, i, b FROM t",
+        "SELECT DISTINCT b, input FROM t",
+        "SELECT DISTINCT a, b FROM t WHERE regexp_matches(input, 'z')",
     ]
 }
 
@@ -127,7 +131,7 @@ fn gap_lines(kind: usize, g: usize) -> Vec<String> {
     v
 }
 
-const AGG_STMTS: [&str; 10] = [
+const AGG_STMTS: [&str; 13] = [
     "SELECT DISTINCT COUNT(*) FROM t GROUP BY b HAVING b != 'a'",
     "SELECT DISTINCT COUNT(*), MAX(i) FROM t GROUP BY b HAVING COUNT(*) < 2",
     "SELECT DISTINCT MAX(i), MIN(j) FROM t GROUP BY b",
@@ -138,6 +142,9 @@ const AGG_STMTS: [&str; 10] = [
     "SELECT DISTINCT MAX(i) FROM t GROUP BY b HAVING MAX(i) > 0",
     "SELECT DISTINCT b, COUNT(*) FROM t GROUP BY b HAVING COUNT(*) > 0",
     "SELECT DISTINCT SUM(a) FROM t GROUP BY i",
+    "SELECT DISTINCT b, COUNT(*) FROM t GROUP BY b, i",
+    "SELECT DISTINCT i, MAX(j) FROM t GROUP BY i, b HAVING COUNT(*) > 0",
+    "SELECT DISTINCT i, b FROM t GROUP BY i, b, j",
 ];
 
 fn agg_case(tables: &Tables, si: usize, seq: &[u8]) -> (Vec<Failure>, bool) {
